@@ -12,6 +12,7 @@ import (
 	"runtime"
 	"strconv"
 	"strings"
+	"sync"
 	"syscall"
 	"time"
 	"unsafe"
@@ -665,6 +666,8 @@ func (s *scen) exec(st *Step) {
 		s.stepDrain(st)
 	case "obs":
 		s.stepObs(st)
+	case "par":
+		s.stepPar(st)
 	case "loop":
 		for i := 0; i < st.N; i++ {
 			for j := range st.Body {
@@ -935,6 +938,44 @@ func (s *scen) stepRep(st *Step) {
 		}
 	}
 	s.emit(J{"k": "fs", "op": "rep", "p": []string{}, "to": []string{}, "fd": "", "ret": "ok", "ino": "", "kind": "", "shadow": all, "n": st.K, "fails": fails})
+}
+
+// stepPar: several threads perform their operations at once, so that the records of different
+// operations interleave in the kernel queue. One trace line carries the records (shadow order).
+func (s *scen) stepPar(st *Step) {
+	var wg sync.WaitGroup
+	start := make(chan struct{})
+	// pre-register names (the name table is not thread safe) and resolve paths
+	type op struct{ from, to string }
+	plans := make([][]op, len(st.Threads))
+	for i, th := range st.Threads {
+		for _, q := range th {
+			plans[i] = append(plans[i], op{s.fsPath(q.P), s.fsPath(q.To)})
+		}
+	}
+	fails := make([]int, len(plans))
+	for i := range plans {
+		wg.Add(1)
+		go func(i int) {
+			defer wg.Done()
+			runtime.LockOSThread()
+			defer runtime.UnlockOSThread()
+			<-start
+			for _, o := range plans[i] {
+				if err := os.Rename(o.from, o.to); err != nil {
+					fails[i]++
+				}
+			}
+		}(i)
+	}
+	close(start)
+	wg.Wait()
+	nf := 0
+	for _, f := range fails {
+		nf += f
+	}
+	recs := s.sh.drain()
+	s.emit(J{"k": "fs", "op": "par", "p": []string{}, "to": []string{}, "fd": "", "ret": "ok", "ino": "", "kind": "", "shadow": recs, "n": len(plans), "fails": nf})
 }
 
 func subst(p []string, i int) []string {
